@@ -24,7 +24,7 @@ RULE = ('case = (stateful subclass of one of the six worker classes, init_state 
 ASSUMPTIONS = ['thread kinds are excluded from the alive-phase read (documented as unspecified)', 'values are compared with ==']
 SHRINK = 'none'
 TIME_BUDGET = {'quick': 170, 'thorough': 1700}
-REQUIRED = {'quick': {'ending:terminate': 60, 'ending:raise': 60, 'chain>1': 80, 'paused_read': 40, 'first_read:user_state': 100, 'restart': 20, 'inplace_mutation': 60, 'same_object_assigned_back': 40, 'death_observed_without_worker_api': 8, 'late_landing_reached': 40},
+REQUIRED = {'quick': {'ending:terminate': 20, 'ending:raise': 40, 'chain>1': 60, 'paused_read': 20, 'first_read:user_state': 100, 'restart': 20, 'inplace_mutation': 60, 'same_object_assigned_back': 40, 'death_observed_without_worker_api': 8, 'late_landing_reached': 40, 'busy_restart': 40},
             'thorough': {'ending:terminate': 180, 'ending:raise': 180, 'chain>1': 250, 'paused_read': 130}}
 
 _VALS = ['none', 'zero', 'str', 'list', 'dict', 'point', 5, 6, 7]
@@ -32,7 +32,7 @@ _ASSIGN = _VALS + ['inplace', 'inplace', 'list', 'dict']
 
 
 def examples(tier):
-    return 720 if tier == 'quick' else 7000
+    return 900 if tier == 'quick' else 7000
 
 
 def shards(tier):
@@ -43,7 +43,7 @@ def strategy(tier):
     inc = st.fixed_dictionaries({
         'values': st.lists(st.sampled_from(_ASSIGN), max_size=10),
         'nowait': st.booleans(),
-        'ending': st.sampled_from(['return', 'return', 'raise', 'terminate']),
+        'ending': st.sampled_from(['return', 'return', 'raise', 'terminate', 'return_lock']),
         'n_raw': st.integers(0, 500),
         'pause': st.booleans(),
         'reads': st.permutations(['user_state', 'has_error', 'result']),
@@ -62,7 +62,11 @@ def strategy(tier):
         'late': st.just(True), 'kind': st.sampled_from(['process', 'p_process', 'remote', 'p_remote']), 'init': st.sampled_from(_VALS),
         'values': st.lists(st.sampled_from(_VALS), min_size=1, max_size=4), 'n_raw': st.integers(0, 50), 'wait_t': st.sampled_from([0, 0.05, 0.3]),
         'reads_alive': st.lists(st.sampled_from(['user_state', 'is_alive', 'has_error', 'wait']), min_size=1, max_size=3)})
-    return st.one_of(general, general, general, same_object, late)
+    # restart() of a persistent worker that is still busy (the old incarnation is ended by restart's own graceful terminate)
+    busy = st.fixed_dictionaries({
+        'busy_restart': st.just(True), 'kind': st.sampled_from(['p_process', 'p_process', 'p_remote', 'p_thread']), 'init': st.sampled_from(_VALS),
+        'values': st.lists(st.sampled_from(_VALS), min_size=1, max_size=4), 'timeout': st.sampled_from([0.2, 0.5]), 'restarts': st.integers(1, 2)})
+    return st.one_of(general, general, general, same_object, late, busy)
 
 
 def _general(inc):
@@ -256,7 +260,63 @@ def run_late(case, ctx):
     return out
 
 
+def run_busy_restart(case, ctx):
+    import copy
+    out = Out()
+    kind = case['kind']
+    cls = vworkers.CLASSES[kind]
+    out.label('kind:' + kind, 'busy_restart')
+    out.nontrivial = True
+    state = vworkers.mkval(case['init'])
+    kw = {'name': IC.fresh_name(ctx, kind), 'init_state': copy.deepcopy(state)}
+    if kind.endswith('remote'):
+        kw['host'] = IC.server(ctx).addr
+    site = kind + ':restart_while_busy'
+    w = None
+    try:
+        try:
+            w = bounded(cls, 25, vworkers.state_target, **kw)
+        except BaseException as e:
+            out.excluded = 'constructor failed: ' + type(e).__name__
+            return out
+        log = []
+        for r_ in range(case['restarts']):
+            final = state
+            for v in case['values']:
+                final = _apply(final, v)
+            w.enqueue(case['values'], 'spin')       # assigns the values, then never returns on its own
+            time.sleep(0.4)
+            try:
+                bounded(w.restart, 40, timeout=case['timeout'])
+            except Blocked:
+                out.viol('restart_blocked', site, '')
+                return out
+            except Exception as e:
+                out.viol('restart_raised:' + type(e).__name__, site, repr(e)[:200])
+                return out
+            try:
+                res = bounded(w.call, 25, [], 'return')
+            except BaseException as e:
+                out.viol('call_after_restart_failed:' + type(e).__name__, site, repr(e)[:200])
+                return out
+            log.append([repr(final)[:40], repr(res)[:60]])
+            if not (isinstance(res, tuple) and len(res) == 2 and res[0] == 'seen' and res[1] == repr(final)):
+                out.viol('incarnation_started_from_wrong_state', site, f'restart #{r_ + 1} of a busy worker: the new incarnation first saw {res!r}, the old one had assigned {final!r} (graceful terminate lets it report)')
+                break
+            state = final
+        out.obs = {'log': log}
+    finally:
+        if w is not None:
+            try:
+                bounded(w.terminate, 10, timeout=1) if not kind.endswith('thread') else bounded(w.terminate, 10, 1, False)
+            except BaseException:
+                pass
+    return out
+
+
 def run_case(case, ctx):
+    if case.get('busy_restart'):
+        return run_busy_restart(case, ctx)
     if case.get('late'):
         return run_late(case, ctx)
     out = Out()
@@ -291,6 +351,8 @@ def run_case(case, ctx):
             name = IC.fresh_name(ctx, kind)
             values = inc['values']
             ending = inc['ending']
+            if ending == 'return_lock' and kind not in ('process', 'p_process'):
+                ending = 'raise'      # (an unsendable result is only followed up for the process kinds, see DESIGN 6)
             out.label('ending:' + ending)
             c = {'kind': kind, 'scenario': 'state', 'cls': 'S', 'values': values, 'ending': ending}
             mode = 'none'
@@ -423,7 +485,7 @@ def run_case(case, ctx):
                 out.label('inplace_mutation')
                 if all(v == 'inplace' for v in values) and isinstance(state, (list, dict)):
                     out.label('same_object_assigned_back')
-            if ending in ('return', 'raise') or not delivered:
+            if ending in ('return', 'raise', 'return_lock') or not delivered:
                 # the child ran to its own end (or the terminate request came too late): every assignment was made ... unless terminate
                 # was requested and landed somewhere we do not know
                 if ending == 'terminate':
@@ -436,7 +498,7 @@ def run_case(case, ctx):
             site = f'{kind}:{ending}:first_read={inc["reads"][0]}'
             if inc.get('nowait') and kind == 'process' and mode == 'none':
                 site += ':no_wait'
-            if not ok and w.error is None and w.has_error:
+            if not ok and w.error is None and w.has_error and ending == 'terminate':
                 # no report reached the parent (has_error True, error None): the property only speaks about endings that let the child report
                 out.label('no_report')
             elif not ok:
